@@ -2,9 +2,11 @@
    (Refutations / examples are closed by vm_compute on a concrete witness.) *)
 From Coq Require Import List ZArith NArith Arith Bool.
 From Coq Require Import Sorting.Sorted.
-From Verif.C32 Require Import Model Spec Proofs Walk Conserve Dia Meets.
+From Verif.C32 Require Import Model Spec Proofs Walk Conserve Dia Meets Full.
 Import ListNotations.
 Open Scope Z_scope.
+
+Definition fl (k : N) (t p b : Z) : flow := {| f_key := k; f_start := t; f_cnt := (p, b) |}.
 
 (* Ring consistency, for EVERY configuration with >= 2 buckets and a positive interval and EVERY interleaving of
    ingest / rollover (with or without sink) / sink attach / List / Statistics, in either variant of the code:
@@ -52,16 +54,6 @@ Theorem c32_counted_once : forall r f r' ob, ring_ok r -> add_flow r f = (r', ob
   end.
 Proof. exact add_flow_counted_once. Qed.
 Print Assumptions c32_counted_once.
-
-(* The model's acceptance decision and bucket choice satisfy the specification's rule (Spec.ok_add) in every
-   reachable state.  PARTIAL model-meets-spec: the List / Statistics / emission clauses of Spec.ok_trace are NOT
-   proved over the model (they need the invariant tying every bucket's statistics and every diachronic window to
-   the log of accepted flows, which was not completed); they are checked on the implementation's and the model's
-   outputs by the correspondence run only. *)
-Theorem c32_model_meets_spec_add_partial : forall r f log em, ring_ok r ->
-  ok_add (nb r) (r_interval r) {| s_eoh := eoh r; s_log := log; s_emitted := em |} f (snd (add_flow r f)) = true.
-Proof. exact add_meets_spec. Qed.
-Print Assumptions c32_model_meets_spec_add_partial.
 
 Theorem c32_future_rejected : forall r t, eoh r <= t -> find_bucket r t = None.
 Proof. exact find_bucket_future_rejected. Qed.
@@ -195,34 +187,47 @@ Theorem c32_emit_shape : forall r, ring_ok r -> cfg_ok r ->
 Proof. exact emit_spec. Qed.
 Print Assumptions c32_emit_shape.
 
-(* ---- towards c32_model_meets_spec (exact acceptance of every model run by Spec.ok_trace): PARTIAL ----
-   Proved: the add clause (c32_model_meets_spec_add_partial above); the extensionality lemma for the sorted lists the
-   oracle compares (below); that Spec.group - the oracle's own grouping - is key-sorted and carries, per key, the sum
-   of the counts of its flows (below); and, semantically, everything the three remaining clauses assert about the
-   model (c32_query_sums_statistics, c32_query_sums_list, c32_emit_complete, c32_emit_at_most_once, c32_emit_terminates).
-   MISSING to turn these into `ok_trace n i now ops (run r0 ops) = true`:
-     (a) the StartTime/EndTime fields: AggregateWindows' a_start/a_end (with its "0 = unset" test, hence 0 < boh) equal
-         the Z.min / Z.max over the selected flows' bucket bounds that Spec.group_step keeps;
-     (b) Spec.bstart s t = b_start of the slot containing t when s_eoh s = eoh r (the computation is in the proof of
-         Proofs.add_meets_spec), so that Spec.in_reading with the readings (gte <= bs, be <= lt) for List and
-         (gte < be, be <= lt / be <= eoh - interval) for Statistics is Dia.lsel resp. the [lo, hi) test;
-     (c) NoDup (map a_key (list_flows ...)) / of the merged statistics (flow_set and stats_add keep keys distinct), to
-         apply sort_by_sorted and then sorted_lookup_ext on both sides;
-     (d) the simulation s_eoh = eoh r, s_log = run_log, s_emitted ~ the ghost list of Walk.pinv along ok_trace_from,
-         with the error case of Statistics (bounds outside the history, c32_one_bucket). *)
-Theorem c32_sorted_lookup_ext : forall A (l1 l2 : list (N * A)),
-  StronglySorted klt l1 -> StronglySorted klt l2 -> (forall k, alookup k l1 = alookup k l2) -> l1 = l2.
-Proof. exact sorted_lookup_ext. Qed.
-Print Assumptions c32_sorted_lookup_ext.
+(* c32_model_meets_spec: the specification oracle of Spec.v (the one the correspondence run applies to the real
+   implementation's outputs) accepts EVERY run of the repaired model: every valid configuration whose initial history
+   lies after the epoch (no bucket boundary is the "unbounded" value 0) and every interleaving of AddFlow (incl. late,
+   future-dated, rejected), Rollover with and without sink, sink attach, List and Statistics with arbitrary bounds.
+   Clause by clause: acceptance and bucket of every flow; every List / Statistics answer equals the oracle's own grouping
+   of the retained accepted flows under one of its admissible roundings (List: bucket wholly inside; Statistics: both
+   bounds rounded down; errors exactly when a bound is outside the history); every collection handed to the sink is
+   non-empty, disjoint from everything handed over before, and equal - keys, counts, StartTime, EndTime - to the oracle's
+   grouping of the accepted flows starting in its interval; the emission terminates.
+   Proof: Full.v - the invariant c32_invariant, the field specification of aggregated flows (sum / earliest bucket
+   start / latest bucket end, Full.fspec) met both by AggregateWindows and by Spec.group, and extensionality of
+   key-sorted lists. *)
+Theorem c32_model_meets_spec : forall n interval now p k ops,
+  (1 <= k)%nat -> (p + k + 2 <= n)%nat -> 0 < interval -> Z.of_nat n * interval < now + 2 * interval ->
+  ok_trace n interval now ops (run (new_ring n interval now p k true true) ops) = true.
+Proof. exact model_meets_spec. Qed.
+Print Assumptions c32_model_meets_spec.
 
-Theorem c32_spec_group_sums_partial : forall interval (s : sstate) (kf : N -> N) fs,
-  StronglySorted klt (group interval s kf fs)
-  /\ forall k, cntof (alookup k (group interval s kf fs)) = sem (fun f => N.eqb (kf (f_key f)) k) fs.
-Proof. exact group_sums. Qed.
-Print Assumptions c32_spec_group_sums_partial.
+(* "Each window emitted exactly once" splits into: at most once (c32_emit_at_most_once), nothing left out / nothing
+   twice inside an emitted window at emission time (c32_emit_complete, and the oracle clause of c32_model_meets_spec),
+   and "every accepted flow behind the emission horizon is eventually emitted".  The last part is FALSE of the code
+   (also after the two repairs): a late flow that lands in a still-unpushed bucket OLDER than an already pushed window is
+   accepted (no warning: the bucket is not marked pushed) but never reaches the sink, because the backward walk stops at
+   the first pushed window start.  Witness: 8 buckets of 10 s, pushAfter 0, bucketsToAggregate 1; the flow at 985 is
+   emitted in [980,990); the late flow at 975 is accepted into the unpushed bucket [970,980) and is in no collection
+   during the 8 rollovers it stays in the history (the only interval ever handed over is [980,990)).  Rollovers with
+   no ingestion change nothing in this: empty windows are walked over and never marked.  The property text only
+   requires "at most once", so this is recorded as a limit of the code, not as a violation. *)
+Theorem c32_every_accepted_flow_emitted_refuted :
+  let ops := [OpAdd (fl 1 985 1 1); OpEmit; OpAdd (fl 2 975 7 7);
+              OpRollover true; OpRollover true; OpRollover true; OpRollover true;
+              OpRollover true; OpRollover true; OpRollover true; OpRollover true; OpList 0 0] in
+  let outs := run (new_ring 8 10 1000 0 1 true true) ops in
+  nth 2 outs ODiverge = OAdd (Some 970)
+  /\ emitted_intervals outs = [(980, 990)]
+  /\ nth 11 outs ODiverge = OList []
+  /\ ok_trace 8 10 1000 ops outs = true.
+Proof. vm_compute. repeat split; reflexivity. Qed.
+Print Assumptions c32_every_accepted_flow_emitted_refuted.
 
 (* ---- the property is FALSE of the code as found (variant fw = fa = false); witnesses replayed on the real code ---- *)
-Definition fl (k : N) (t p b : Z) : flow := {| f_key := k; f_start := t; f_cnt := (p, b) |}.
 
 (* "each window of buckets is emitted at most once" fails: 7 buckets of 10 s, pushAfter 0, bucketsToAggregate 2
    (a configuration valid_cfg accepts), one flow, first sink attach: the bucket [980,990) is handed over twice. *)
